@@ -200,7 +200,8 @@ def plan(prop, tier, seed, budget):
                  'hinted insert via find, find, erase, walk with stop, clear, height) over key universes of 1..1000 keys and '
                  'four comparison functions; oracle = reference multiset per comparison class with pointer identity against '
                  'the element pool, size after every op, full audit (both walks with PRE/MID/POST/LEAF bracket check and '
-                 'order, find of every key) after every op in short histories / G1 and every 8th op otherwise. '
+                 'order, find of every key) after every op in short histories / G1 and every 8th op otherwise. In a quarter of the '
+                 'generated cases the comparison function is re-entrant (finds and walks another tree while comparing). '
                  'Non-trivial: >= 1 insert of a key already held, >= 1 erase of a node with two children, >= 1 audit walk '
                  'over >= 3 elements. Distinct = distinct case byte strings (FNV-64).',
             assumptions=COMMON_ASSUME,
@@ -255,7 +256,8 @@ def plan(prop, tier, seed, budget):
                  'erase by iterator, clear (callback / NULL) on a cstl_map whose keys are pointers to harness cells (several '
                  'cells per value, three comparison functions incl. modulo classes); oracle = reference map class -> stored '
                  '(key pointer, value pointer): return codes 0/1/-1, iterator contents, end iterators, size, and allocation '
-                 'accounting (one node per entry, none after clear). Non-trivial: >= 1 re-insert of an existing key with '
+                 'accounting (one node per entry, none after clear). In a quarter of the generated cases the comparison function is '
+                 're-entrant: every comparison looks a present and an absent key up in another map. Non-trivial: >= 1 re-insert of an existing key with '
                  'another cell, >= 1 successful erase, and a non-ascending insertion order. Distinct = distinct case bytes.',
             assumptions=COMMON_ASSUME,
         )
